@@ -1895,7 +1895,7 @@ func drawPolicy(t *rapid.T, v *vector) polDraw {
 	}
 	d.caseList = bi == 6 || wi == 6
 	tdxDesc := "nil"
-	tdxPick := rapid.IntRange(0, 9).Draw(t, "tdx")
+	tdxPick := rapid.IntRange(0, 10).Draw(t, "tdx")
 	if !v.tdx && tdxPick > 3 {
 		tdxPick = 2 // module lists are irrelevant for an SGX quote
 	}
@@ -1916,6 +1916,12 @@ func drawPolicy(t *rapid.T, v *vector) polDraw {
 		ms[rapid.IntRange(0, 47).Draw(t, "seamByte")] ^= 1
 		p.TDX = &pcs.TdxQuotePolicy{AllowedTdxModules: []pcs.TdxModulePolicy{{MrSeam: &ms, MrSignerSeam: v.mrSignerSeam}}}
 		tdxDesc = "module with one MRSEAM bit different"
+	case 10:
+		// the measurement is the quote's, the signer is not: both are pinned, both must match
+		ms, sg := v.mrSeam, v.mrSignerSeam
+		sg[rapid.IntRange(0, 47).Draw(t, "signerByte2")] ^= 1
+		p.TDX = &pcs.TdxQuotePolicy{AllowedTdxModules: []pcs.TdxModulePolicy{{MrSeam: &ms, MrSignerSeam: sg}}}
+		tdxDesc = "exact MRSEAM of the quote with another signer"
 	case 7:
 		sg := v.mrSignerSeam
 		sg[rapid.IntRange(0, 47).Draw(t, "signerByte")] ^= 1
